@@ -11,7 +11,7 @@ from common import Failure
 ID = 'C07'
 DRIVER = 'drv_insp'
 DRIVER_ROOT = 'Drivers.Insp'
-PROOF_MODULES = ['OsloProofs.Props.C07']
+PROOF_MODULES = ['OsloProofs.Props.C07', 'OsloProofs.Props.C07Vmdk']
 LEVEL = 'proof'
 RULE = ('well-formed images of the ten layouts whose declared size runs over the field\'s full range (0, 1, 2^k+-1, 2^32+-1, '
         '2^63, 2^64-1, random; ISO blocks x block size; LUKS payload offsets; stream lengths for raw/GPT) x admissible '
@@ -80,6 +80,18 @@ def special_layouts(rng, quick):
         p = dict(sectors=rng.choice(EDGE64 + [rng.getrandbits(64)]), ver=rng.choice([1, 2, 3]), desc_num=dn,
                  typ=rng.choice(G.SPARSE_TYPES), footer=rng.random() < 0.5, body=rng.choice([0, 700]), header_fill=0)
         out.append(G.wellformed('vmdk', rng, params=p))
+    # VMDK: descriptor text that fills its desc_num*512 bytes exactly (no NUL padding), the createType line
+    # last / not last, with / without a final newline
+    for dn in (1, 2, 3) if quick else (1, 2, 3, 8, 20):
+        for type_last in (True, False):
+            for nl in (True, False):
+                typ = rng.choice(G.SPARSE_TYPES)
+                p = dict(sectors=rng.choice(EDGE64 + [rng.getrandbits(64)]), ver=rng.choice([1, 2, 3]), desc_num=dn, typ=typ,
+                         footer=rng.random() < 0.3, body=rng.choice([0, 700]), header_fill=0,
+                         desc=G.exact_fill_desc(typ, dn * 512, type_last, nl))
+                w = G.wellformed('vmdk', rng, params=p)
+                w.tag = 'wf/vmdk/exact-fill'
+                out.append(w)
     # ISO: identifiers and block sizes
     for ident in (b'CD001', b'NSR02', b'NSR03'):
         for bs in (512, 2048, 4096, G.U16):
